@@ -110,6 +110,10 @@ def concurrent_views(ctx, count):
         for mode, pct in (("uniform", None), ("pct2", 2)):
             r = vh.call(op="sched_scenario", setup=setup, threads=threads, after=after, seed=ctx.seed * 131 + 3, count=count, pct=pct,
                         est=200, timeout=1800)
+            if isinstance(r, dict) and r.get("sched_deadlock"):
+                # every thread of the scenario is blocked on a map lock held by another: no outcome at all
+                ctx.violation({"kind": "deadlock-under-scheduler", "where": "c05"}, {"detail": str(r.get("detail", ""))[:1500]})
+                break
             if "distinct_schedules" not in r:
                 raise Inconclusive(f"harness refused the scenario: {str(r)[:300]}")
             ctx.judged(count)
@@ -181,8 +185,9 @@ def one(ctx, root, abs_files, rel_files, generated, spec):
                 for u in m.usages:
                     if u["name"] in ("request", "self", "cls") or u.get("has_default"):
                         continue
-                    if not u.get("exact_span", True) or not u.get("plain_string", True):
-                        continue
+                    multi_indirect = u["kind"] == "indirect" and not u.get("exact_span", True) and u.get("plain_string", True)
+                    if (not u.get("exact_span", True) or not u.get("plain_string", True)) and not multi_indirect:
+                        continue        # (a name inside a multi-name indirect string is judged at its own columns)
                     pos = (u["line"] - 1, u["start_b"])
                     ids = {}
                     r = srv.definition(f, *pos)
@@ -233,7 +238,7 @@ def one(ctx, root, abs_files, rel_files, generated, spec):
                             ids["outgoingCalls"] = tos[0] if len(tos) == 1 else (None if not tos else ("multiple", tuple(tos)))
                     # inlay hint on this usage
                     lab = hint_at.get((u["line"] - 1, u["end_b"]))
-                    if lab is not None and generated and not u.get("annotated"):
+                    if lab is not None and generated and not u.get("annotated") and not multi_indirect:
                         lab = lab if isinstance(lab, str) else "".join(x["value"] for x in lab)
                         mm = T_RE.search(lab)
                         if mm and int(mm.group(1)) in k2d:
